@@ -308,7 +308,7 @@ def build_streams(ctx):
             for b in range(256):
                 batches.append(f"decpre {a:02x}{b:02x} 2")
                 n4 += 1
-    npre = 96 if quick else 2000
+    npre = 48 if quick else 2000
     for _ in range(npre):
         pre = rand_utf8ish(rng)[:rng.randrange(2, 7)]
         batches.append(f"decpre {hx(pre)} {rng.choice([1, 2, 2])}")
@@ -456,6 +456,40 @@ def run_streams(ctx, harness, driver, batches, singles, corpus):
         C.report_diffs(ctx, small, harness, driver, reference, C.default_eq, name)
 
 
+def spec_test(ctx, driver):
+    """the specifications the theorems are stated against (Spec.utf8, Spec.rfc4648Encode, Spec.upperHex,
+    decDigits/decimalValue) evaluated by the compiled driver and compared with Python: a TEST of the specs"""
+    rng = ctx.rng
+    lines, want = [], []
+    B = 16384
+    for s0 in range(0, 0x110000, B):
+        lines.append(f"spec-utf8 {s0} {B}")
+        h = 0xcbf29ce484222325
+        h = fnv(h, b"".join(bytes([len(e)]) + e for e in (enc_ref(c) for c in range(s0, s0 + B))))
+        want.append(f"spec-utf8 {h:016x}")
+    raws = [b"", b"f", b"fo", b"foo", b"foob", b"fooba", b"foobar"] + [bytes([a]) for a in range(256)]
+    raws += [bytes([a, b]) for a in range(0, 256, 7) for b in range(256)]
+    raws += [bytes(rng.randrange(256) for _ in range(rng.randrange(3, 60))) for _ in range(3000)]
+    for r in raws:
+        lines.append(f"spec-b64 {hx(r)}")
+        want.append(f"spec-b64 {hx(base64.b64encode(r))}")
+        lines.append(f"spec-hex {hx(r)}")
+        want.append(f"spec-hex {hx(r.hex().upper().encode())}")
+    for v in int_values(rng, 64, False, 3000) + [1 << 64, 10 ** 30 + 7]:
+        lines.append(f"spec-dec {v}")
+        want.append(f"spec-dec {v} {v}")
+    out, rc, err = C.run_lines(driver, lines, timeout=300)
+    bad = [(l, w, o) for l, w, o in zip(lines, want, out + [None] * (len(lines) - len(out))) if w != o]
+    ctx.cov["spec_lines_checked_against_python"] = len(lines)
+    ctx.cov["evaluations"] += len(lines)
+    ctx.log(f"spec test: {len(lines)} lines of Spec.* vs Python, {len(bad)} mismatch(es)")
+    if bad:
+        l, w, o = bad[0]
+        ctx.broken.append(f"specification test: {l}: Lean spec gives {o}, Python gives {w}")
+        ctx.violation("a specification in Nstd/Codec/Spec.lean disagrees with Python (codecs/base64/int)",
+                      f"{l}\n# lean spec: {o}\n# python   : {w}\n", no_input=True)
+
+
 def check(ctx):
     ctx.assumptions += [
         "libc as specified by ISO C11 / glibc on LP64: vsnprintf with %d %u %lld %llu prints the decimal text (minus sign, no padding) and returns its length; "
@@ -475,6 +509,7 @@ def check(ctx):
             ctx.log("proof stage broken: searching harder for a failing input")
             singles += [f"b64 {hx(rand_b64(ctx.rng))}" for _ in range(20000)] + [f"dec {hx(rand_utf8ish(ctx.rng))}" for _ in range(20000)]
         run_streams(ctx, harness, C.driver_path(DRIVER), batches, singles, C.load_corpus(ctx.prop))
+        spec_test(ctx, C.driver_path(DRIVER))
     finally:
         try:
             harness.unlink()
